@@ -7,3 +7,7 @@ import J1939.Props.C10
 #print axioms J1939.Props.C10.c10_tickRcv_keeps_snd
 #print axioms J1939.Props.C10.c10_abort_releases
 #print axioms J1939.Props.C10.c10_22_deleted_returns_number
+#print axioms J1939.Props.C10.c10_22_cons_init
+#print axioms J1939.Props.C10.c10_22_conservation
+#print axioms J1939.Props.C10.c10_22_used_iff_held
+#print axioms J1939.Props.C10.c10_22_idle_means_full
